@@ -1223,6 +1223,7 @@ int EnvMain(const std::map<std::string, std::string> &a, const std::string &cmd)
     po.budget_s = atof(get("budget", "0").c_str());
     po.log_dir = log_dir;
     po.hashlog = hashlog;
+    po.permute = po.budget_s > 0;
     PoolResult pr = RunPool(po, cb);
     (void)failed_then_used;
     Json sum = Json::Object();
